@@ -188,6 +188,42 @@ func c12Family(thorough bool) []*c12Func {
 			}
 		}
 	}
+	// near the ends of a narrow counter's range: a step other than +-1 can jump over the values at
+	// which the test fails, the counter wraps and the loop goes on (uint8 10,7,4,1,254,...)
+	for _, T := range []string{"int8", "uint8"} {
+		bounds := []string{"-126", "-100", "100", "126", "b"}
+		if T == "uint8" {
+			bounds = []string{"0", "1", "200", "250", "254", "b"}
+		}
+		for _, shape := range []string{"for3", "while"} {
+			for _, op := range []string{"<", "<=", ">", ">="} {
+				for _, step := range []int{3, 7, 50, 100, -3, -7, -50} {
+					for _, start := range []string{"0", "2", "10", "a"} {
+						for _, bound := range bounds {
+							if !thorough && shape == "while" && (step == 7 || step == -7 || step == 50) {
+								continue
+							}
+							l := &c12Loop{id: 0, v: "i", typ: T, start: start, bound: bound, op: op, step: step, shape: shape}
+							c12Gen(l, [2]string{})
+							add(fmt.Sprintf("%s/%s/i%s%s/start=%s/step=%+d/range-end", T, shape, op, bound, start, step), []*c12Loop{l}, l.plain, l.native)
+						}
+					}
+				}
+			}
+		}
+		// a bound that is itself computed in the narrow type and wraps (c := T(3); i < c-5)
+		for _, op := range []string{"<", "<=", ">"} {
+			for _, step := range []int{1, 2, -1} {
+				l := &c12Loop{id: 0, v: "i", typ: T, start: "0", bound: "c-5", op: op, step: step, shape: "for3"}
+				c12Gen(l, [2]string{})
+				pre := "c := " + T + "(3)\n"
+				if T == "int8" {
+					pre = "c := " + T + "(-125)\n"
+				}
+				add(fmt.Sprintf("%s/for3/i%sc-5/start=0/step=%+d/wrapping-bound", T, op, step), []*c12Loop{l}, pre+l.plain, pre+l.native)
+			}
+		}
+	}
 	// geometric counters (i *= c): no start-plus-k-times-step description of them is right
 	for _, shape := range []string{"for3", "while", "exittrue"} {
 		for _, op := range []string{"<", "<=", "!="} {
@@ -541,6 +577,40 @@ func TestVerifC12(t *testing.T) {
 				}
 				claimsText[f.name] = append(claimsText[f.name], desc)
 				fmt.Fprintf(&tab, "\t\t{%d, %d, %s, %s},\n", sl.id, width, ivf, tripf)
+			}
+		}
+		// what ToSCEV says about every header phi (the description other passes build on)
+		for _, l := range all {
+			if l.Header == nil {
+				continue
+			}
+			for _, in := range l.Header.Instrs {
+				phi, isPhi := in.(*ssa.Phi)
+				if !isPhi {
+					continue
+				}
+				rec, isRec := loop.ToSCEV(phi, l).(*loop.SCEVAddRec)
+				if !isRec {
+					continue
+				}
+				var sl *c12Loop
+				for _, cand := range f.loops {
+					if cand.v == phi.Comment {
+						sl = cand
+					}
+				}
+				if sl == nil {
+					continue
+				}
+				width := map[string]int{"int8": 8, "uint8": -8, "int16": 16, "uint32": -32}[sl.typ]
+				st, ok1 := c12Expr(rec.Start)
+				sp, ok2 := c12Expr(rec.Step)
+				if !ok1 || !ok2 {
+					continue
+				}
+				r.Count("toscev_iv_claims", 1)
+				claimsText[f.name] = append(claimsText[f.name], fmt.Sprintf("ToSCEV describes %s as {%s, +, %s}", phi.Comment, rec.Start.String(), rec.Step.String()))
+				fmt.Fprintf(&tab, "\t\t{%d, %d, func(a, b int, k int64) val { return add(%s, mul(%s, lit(k))) }, nil},\n", sl.id, width, st, sp)
 			}
 		}
 		// what the CANONICAL IR says: every header phi it replaces by a recurrence text is a claim
